@@ -86,6 +86,9 @@ theorem entry_flags :
         ("binson_parser_get_raw", [[.enterObj], [.leaveObj], [.enterArr], [.leaveArr]]) ] := by decide
 
 /-! ### the control skeleton of `_advance_parsing` the model was transliterated from.
+    The extraction (tools/gen_consts.py) is insensitive to renamed locals/parameters, to local constants
+    standing for a mask, and to the ORDER of the case blocks of a switch whose blocks all end in
+    break/return (they are listed in ascending order of their labels, `default` last).
     Any edit to the sequence of case labels, `scan_flags`/`flags` tests and stores, error codes,
     cursor/depth updates, returns and callbacks shows up here; whether the edit matters is then
     decided by the correspondence run and the violation search. -/
@@ -96,20 +99,20 @@ theorem advance_skeleton :
        ("case", 67), ("next_state", 4096), ("return", 0), ("chk_flags", 3), ("chk_flags", 1),
        ("next_state", 32768), ("chk_next", 3056), ("chk_flags", 2), ("set_flags", 1), ("err", 2),
        ("return", 0), ("chk_flags", 12), ("chk_flags", 4), ("set_flags", 8), ("clr_scan", 32),
-       ("set_flags", 4), ("clr_scan", 32), ("case", 512), ("chk_scan", 55), ("clr_scan", 2),
-       ("used_add_1", 0), ("depth_inc", 0), ("set_flags", 1), ("err", 8), ("eq_flags", 1),
-       ("set_flags", 2), ("case", 1024), ("chk_flags", 1), ("err", 2), ("chk_scan", 53),
-       ("clr_scan", 4), ("chk_scan", 32), ("return", 0), ("used_add_1", 0), ("wipe_level", 0),
-       ("depth_dec", 0), ("depth_dec", 0), ("err", 2), ("callback", 0), ("return", 0),
-       ("err", 2), ("return", 0), ("return", 0), ("case", 32768), ("err", 2),
+       ("set_flags", 4), ("clr_scan", 32), ("case", 16), ("case", 32), ("case", 64),
+       ("err", 2), ("case", 128), ("err", 2), ("case", 256), ("case", 512),
+       ("chk_scan", 55), ("clr_scan", 2), ("used_add_1", 0), ("depth_inc", 0), ("set_flags", 1),
+       ("err", 8), ("eq_flags", 1), ("set_flags", 2), ("case", 1024), ("chk_flags", 1),
+       ("err", 2), ("chk_scan", 53), ("clr_scan", 4), ("chk_scan", 32), ("return", 0),
+       ("used_add_1", 0), ("wipe_level", 0), ("depth_dec", 0), ("depth_dec", 0), ("err", 2),
+       ("callback", 0), ("return", 0), ("err", 2), ("return", 0), ("return", 0),
+       ("case", 2048), ("err", 9), ("chk_scan", 61), ("clr_scan", 8), ("used_add_1", 0),
+       ("set_flags", 4), ("ad_inc", 0), ("eq_flags", 1), ("set_flags", 2), ("case", 4096),
+       ("chk_flags", 12), ("err", 2), ("chk_scan", 53), ("clr_scan", 16), ("err", 2),
+       ("ad_dec", 0), ("used_add_1", 0), ("set_flags", 1), ("err", 2), ("callback", 0),
+       ("return", 0), ("set_flags", 4), ("return", 0), ("case", 32768), ("err", 2),
        ("used_sub_bytes_consumed", 0), ("set_flags", 1), ("return", 0), ("clr_scan", 32), ("set_flags", 2),
-       ("proceed", 1), ("case", 2048), ("err", 9), ("chk_scan", 61), ("clr_scan", 8),
-       ("used_add_1", 0), ("set_flags", 4), ("ad_inc", 0), ("eq_flags", 1), ("set_flags", 2),
-       ("case", 4096), ("chk_flags", 12), ("err", 2), ("chk_scan", 53), ("clr_scan", 16),
-       ("err", 2), ("ad_dec", 0), ("used_add_1", 0), ("set_flags", 1), ("err", 2),
-       ("callback", 0), ("return", 0), ("set_flags", 4), ("return", 0), ("case", 16),
-       ("case", 256), ("case", 128), ("err", 2), ("case", 64), ("err", 2),
-       ("case", 32), ("err", 2), ("return", 0), ("return", 0), ("callback", 0),
+       ("proceed", 1), ("err", 2), ("return", 0), ("return", 0), ("callback", 0),
        ("chk_scan", 53), ("proceed", 1)] := by decide
 
 end Binson
